@@ -351,6 +351,54 @@ func c07Undo(r *core.Run, p *core.Program) {
 		evCall("abort a running save", "(*lib/utxo.UnspentDB).abortWriting", -1),
 		evCall("apply the changes", "(*lib/utxo.UnspentDB).commit", -1),
 	})
+	// the same for every other operation that changes the contents of the set while a snapshot may be being
+	// written (the writer records the tip when it starts and walks the buckets over seconds): disconnecting a
+	// block and purging unspendable outputs. A snapshot that is not aborted would be labelled with the old tip
+	// and hold a mixture of old and new contents.
+	for _, n := range []string{"UndoBlockTxs", "PurgeUnspendable"} {
+		fn := p.Func("lib/utxo.(*UnspentDB)." + n)
+		if fn == nil {
+			r.Fail(rule, "save-aborted-first/"+n, "-", "function not found")
+			continue
+		}
+		var aborts []ssa.Instruction
+		for _, c := range an.CallsTo(fn, false, "(*lib/utxo.UnspentDB).abortWriting") {
+			if ci, ok := c.(*ssa.Call); ok {
+				aborts = append(aborts, ci)
+			}
+		}
+		bad := ""
+		nw := 0
+		for _, f := range an.WithClosures(fn) {
+			an.Instrs(f, func(i ssa.Instruction) {
+				w := c17IsHashMapWrite(i)
+				if c, ok := i.(*ssa.Call); ok {
+					switch an.CallName(c) {
+					case "(*lib/utxo.UnspentDB).del", "(*lib/utxo.UnspentDB).commit":
+						w = true
+					}
+				}
+				if !w {
+					return
+				}
+				nw++
+				okA := false
+				blk := i.Block()
+				if f != fn {
+					okA = len(aborts) > 0 // a worker closure: started after the abort if the abort dominates its creation; conservatively require an abort at all
+				}
+				for _, a := range aborts {
+					if f == fn && (a.Block() != blk && a.Block().Dominates(blk) || a.Block() == blk && a.Pos() < i.Pos()) {
+						okA = true
+					}
+				}
+				if !okA {
+					bad = p.Pos(an.InstrPos(i))
+				}
+			})
+		}
+		r.Check(nw > 0 && bad == "", rule, "save-aborted-first/"+n, p.Pos(fn.Pos()), fmt.Sprintf("%d changes of the set, all after aborting a running snapshot", nw), n+" changes the set at "+bad+" without first aborting a snapshot that may be in progress")
+	}
 }
 
 func c07Blocks(r *core.Run, p *core.Program) {
